@@ -183,6 +183,18 @@ void label(const char* name) {
   if (s->n_labels < MAX_LABELS) snprintf(s->labels[s->n_labels++], sizeof s->labels[0], "%s", name);
 }
 void nontrivial() { g_shm->nontrivial = 1; }
+void count(const char* name, uint64_t n) {
+  Shm* s = g_shm;
+  for (uint32_t i = 0; i < s->n_counters; ++i)
+    if (strncmp(s->counter_names[i], name, sizeof s->counter_names[i] - 1) == 0) {
+      s->counters[i] += n;
+      return;
+    }
+  if (s->n_counters < 16) {
+    snprintf(s->counter_names[s->n_counters], sizeof s->counter_names[0], "%s", name);
+    s->counters[s->n_counters++] = n;
+  }
+}
 void fp(uint64_t h) { g_shm->fingerprint = mix(g_shm->fingerprint, h); }
 bool want_desc() { return g_shm->flags & F_WANT_DESC; }
 void desc(const char* fmt, ...) {
@@ -1329,6 +1341,34 @@ void __tsan_vptr_update(void** vptr, void* val) {
 void __tsan_vptr_read(void** vptr) { plain_access(vptr, 8, false); }
 void __tsan_ignore_thread_begin() {}
 void __tsan_ignore_thread_end() {}
+
+// atomics used by the standard library inside the instrumented TU (static-init guards, shared_ptr counts, ...):
+// the compiler turns them into __tsan_atomic* calls; they are not part of the code under test -> plain atomics.
+#define VRT_TSAN_ATOMIC(N, T)                                                                                                   \
+  T __tsan_atomic##N##_load(const volatile T* a, int) { return __atomic_load_n(a, __ATOMIC_SEQ_CST); }                         \
+  void __tsan_atomic##N##_store(volatile T* a, T v, int) { __atomic_store_n(a, v, __ATOMIC_SEQ_CST); }                         \
+  T __tsan_atomic##N##_exchange(volatile T* a, T v, int) { return __atomic_exchange_n(a, v, __ATOMIC_SEQ_CST); }               \
+  T __tsan_atomic##N##_fetch_add(volatile T* a, T v, int) { return __atomic_fetch_add(a, v, __ATOMIC_SEQ_CST); }               \
+  T __tsan_atomic##N##_fetch_sub(volatile T* a, T v, int) { return __atomic_fetch_sub(a, v, __ATOMIC_SEQ_CST); }               \
+  T __tsan_atomic##N##_fetch_and(volatile T* a, T v, int) { return __atomic_fetch_and(a, v, __ATOMIC_SEQ_CST); }               \
+  T __tsan_atomic##N##_fetch_or(volatile T* a, T v, int) { return __atomic_fetch_or(a, v, __ATOMIC_SEQ_CST); }                 \
+  T __tsan_atomic##N##_fetch_xor(volatile T* a, T v, int) { return __atomic_fetch_xor(a, v, __ATOMIC_SEQ_CST); }               \
+  int __tsan_atomic##N##_compare_exchange_strong(volatile T* a, T* c, T v, int, int) {                                        \
+    return __atomic_compare_exchange_n(a, c, v, false, __ATOMIC_SEQ_CST, __ATOMIC_SEQ_CST);                                    \
+  }                                                                                                                            \
+  int __tsan_atomic##N##_compare_exchange_weak(volatile T* a, T* c, T v, int, int) {                                          \
+    return __atomic_compare_exchange_n(a, c, v, false, __ATOMIC_SEQ_CST, __ATOMIC_SEQ_CST);                                    \
+  }                                                                                                                            \
+  T __tsan_atomic##N##_compare_exchange_val(volatile T* a, T c, T v, int, int) {                                              \
+    __atomic_compare_exchange_n(a, &c, v, false, __ATOMIC_SEQ_CST, __ATOMIC_SEQ_CST);                                          \
+    return c;                                                                                                                  \
+  }
+VRT_TSAN_ATOMIC(8, unsigned char)
+VRT_TSAN_ATOMIC(16, unsigned short)
+VRT_TSAN_ATOMIC(32, unsigned int)
+VRT_TSAN_ATOMIC(64, unsigned long)
+void __tsan_atomic_thread_fence(int) { __atomic_thread_fence(__ATOMIC_SEQ_CST); }
+void __tsan_atomic_signal_fence(int) {}
 }
 
 // ------------------------------------------------------------------------------------------------
@@ -1413,6 +1453,7 @@ void case_begin(Shm* shm) {
   s->steps = 0;
   s->switches = s->stale_reads = 0;
   s->n_labels = 0;
+  s->n_counters = 0;
   s->desc_len = 0;
   s->desc[0] = 0;
   s->out.n_prog = s->out.n_sched = s->out.n_rf = s->out.n_rnd = s->out.n_spur = 0;
